@@ -10,6 +10,7 @@ import (
 	"sync"
 	"sync/atomic"
 	"testing"
+	"testing/synctest"
 	"time"
 
 	"github.com/whoisnian/glb/tasklane"
@@ -36,6 +37,8 @@ var bias = ls.Bias{
 	Deadline:  10,
 	MaxOps:    60,
 	Cancel:    true,
+
+	PanicStreak: true,
 }
 
 var hookHits = map[string]int{}
@@ -276,5 +279,135 @@ func TestRealTimeStress(t *testing.T) {
 		ev.Case(timeouts > 0 && accepted > 0, ev.Hash("rt", os.Getenv("GODEBUG"), fmt.Sprint(lanes, queue, timeout, producers, taskDur, len(all), timeouts)), func() string {
 			return fmt.Sprintf("real-clock stress GODEBUG=%q lanes=%d queue=%d timeout=%s producers=%d taskDuration=%s: %d pushes, %d accepted, %d timed out", os.Getenv("GODEBUG"), lanes, queue, timeout, producers, taskDur, len(all), accepted, timeouts)
 		})
+	})
+}
+
+// ---- the same task value pushed more than once ----
+
+// reTask is a task object that its owner pushes again and again (a periodic job, a retry): every accepted push is a task
+// in the sense of the statement, so the object is started once per accepted push.
+type reTask struct {
+	starts   atomic.Int32
+	accepted atomic.Int32
+	inFlight atomic.Int32
+	gate     chan struct{} // its runs block until the gate is closed (nil: they return at once)
+	again    atomic.Int32  // that many runs push the object once more from inside Start()
+	push     func(lane int) error
+	over     atomic.Bool // more starts than accepted pushes plus pushes in progress were seen
+}
+
+func (r *reTask) Start() {
+	if n := r.starts.Add(1); n > r.accepted.Load()+r.inFlight.Load() {
+		r.over.Store(true)
+	}
+	if r.gate != nil {
+		<-r.gate
+	}
+	if r.again.Add(-1) >= 0 {
+		r.push(int(r.starts.Load())) // a task that schedules its own next run (on some lane)
+	}
+}
+
+// reValue hands the same object over as a comparable struct value: two pushes carry values that are == to each other.
+type reValue struct {
+	r   *reTask
+	tag string
+}
+
+func (v reValue) Start() { v.r.Start() }
+
+func TestSameTaskPushedAgain(t *testing.T) {
+	rt.Check(t, 400, 60000, func(t *rapid.T) {
+		laneSize := rapid.IntRange(1, 3).Draw(t, "laneSize")
+		queueSize := rapid.IntRange(0, 3).Draw(t, "queueSize")
+		nobj := rapid.IntRange(1, 3).Draw(t, "objects")
+		type objSpec struct {
+			asValue, gated bool
+			again          int
+		}
+		specs := make([]objSpec, nobj)
+		for i := range specs {
+			specs[i] = objSpec{asValue: rapid.Bool().Draw(t, "asValue"), gated: rapid.IntRange(0, 2).Draw(t, "gated") == 0, again: rapid.SampledFrom([]int{0, 0, 1, 4}).Draw(t, "pushesItselfAgain")}
+		}
+		type step struct {
+			obj, lane     int
+			settle, spawn bool
+		}
+		steps := make([]step, rapid.IntRange(2, 14).Draw(t, "pushes"))
+		for i := range steps {
+			steps[i] = step{obj: rapid.IntRange(0, nobj-1).Draw(t, "obj"), lane: rapid.IntRange(0, laneSize-1).Draw(t, "lane"), settle: rapid.Bool().Draw(t, "settleFirst"), spawn: rapid.IntRange(0, 3).Draw(t, "fromAnotherGoroutine") == 0}
+		}
+		desc := fmt.Sprintf("laneSize=%d queueSize=%d objects=%+v pushes=%+v", laneSize, queueSize, specs, steps)
+		rt.Describe(desc)
+		var msg string
+		repeats := 0
+		rapid.SyncTest(t, func(t *rapid.T) {
+			ctx, cancel := context.WithCancel(context.Background())
+			tl := tasklane.New(ctx, laneSize, queueSize)
+			objs := make([]*reTask, nobj)
+			vals := make([]tasklane.Task, nobj)
+			for i := range objs {
+				r := &reTask{}
+				if specs[i].gated {
+					r.gate = make(chan struct{})
+				}
+				r.again.Store(int32(specs[i].again))
+				vals[i] = r
+				if specs[i].asValue {
+					vals[i] = reValue{r: r, tag: "job"}
+				}
+				v := vals[i]
+				r.push = func(lane int) error {
+					r.inFlight.Add(1)
+					err := tl.PushTask(v, lane%laneSize)
+					if err == nil {
+						r.accepted.Add(1)
+					}
+					r.inFlight.Add(-1)
+					return err
+				}
+				objs[i] = r
+			}
+			var wg sync.WaitGroup
+			pushed := make([]int, nobj)
+			for _, st := range steps {
+				if st.settle {
+					synctest.Wait()
+				}
+				r := objs[st.obj]
+				pushed[st.obj]++
+				if st.spawn {
+					wg.Add(1)
+					go func() { defer wg.Done(); r.push(st.lane) }()
+				} else {
+					r.push(st.lane)
+				}
+			}
+			for _, r := range objs {
+				if r.gate != nil {
+					close(r.gate)
+				}
+			}
+			wg.Wait()
+			time.Sleep(5 * time.Second) // virtual: every push that had to wait has been accepted or has timed out by now
+			synctest.Wait()
+			for i, r := range objs {
+				if pushed[i] > 1 {
+					repeats++
+				}
+				if r.over.Load() {
+					msg = fmt.Sprintf("task object %d was started more often than it had been pushed", i)
+				} else if s, a := r.starts.Load(), r.accepted.Load(); s != a {
+					msg = fmt.Sprintf("task object %d: PushTask returned nil %d times for it (pushed %d times from outside, the rest by itself), but with a live context, every run returned and the clock advanced it has been started %d times", i, a, pushed[i], s)
+				}
+			}
+			cancel()
+			tl.Wait()
+		})
+		if msg != "" {
+			t.Fatalf("%s\n%s", msg, desc)
+		}
+		ev.Label("same_task_value_pushed_again")
+		ev.Case(repeats > 0, ev.Hash("again", desc), func() string { return "one task value pushed several times: " + desc })
 	})
 }
